@@ -27,6 +27,7 @@ INVARIANT SetReturnsSettled
 INVARIANT ClockTimes
 INVARIANT TbOrder
 PROPERTY NoTimeTravel
+CONSTRAINT TimeBound
 CHECK_DEADLOCK FALSE
 """
 
@@ -94,7 +95,7 @@ def run(ctx):
 
 def replay(ctx, rep):
     m = rep["replay"]
-    got = sim_replay.run(m["fn"], [tuple(o) for o in m["script"]], m["period"], m["phase"], variant=m["variant"], perm_seed=m["perm_seed"])
+    got = sim_replay.run(m["fn"], [[tuple(o) for o in sc] for sc in m["script"]], m["period"], m["phase"], variant=m["variant"], perm_seed=m["perm_seed"])
     print("expected:", m["expected"])
     print("actual:  ", [list(o) for o in got])
     if [list(o) for o in got] != m["expected"]:
